@@ -132,6 +132,11 @@ theorem secure_header_layout (w : Writer) (src ver : Nat) (pcode oid key : Int) 
     (w.secureHeader src ver pcode oid key).written = (w.secureHeader src ver pcode oid key).buf.length :=
   Writer.secureHeader_spec w src ver pcode oid key
 
+/-- `Write(b, off, sz)` appends exactly the window `b[off : off+sz]` and adds `sz` to `Size()` -/
+theorem write_window (w : Writer) (b : Bytes) (off sz : Nat) (h : off + sz ≤ b.length) :
+    (w.window b off sz).buf = w.buf ++ (b.drop off).take sz ∧
+    (w.window b off sz).written = w.written + sz := Writer.window_spec w b off sz h
+
 theorem header_roundtrip (w : Writer) (src ver : Nat) (pcode lic : Int) (r : Bytes)
     (hs : src < 256) (hv : ver < 256) (hp : inRange 8 pcode) (hl : inRange 8 lic)
     (hb : w.buf.length < 2147483648) :
